@@ -21,7 +21,8 @@ def negative_stream(res, rnd, tier, seed, prop):
     base, _ = P.generate(seed + 11, 150 if tier == "quick" else 4000, max_depth=3, features=dict(mark=0.0))
     if prop == "C13":
         # typed content of cells: only the stores of a value outside the cell's content type
-        muts = [("assign-template", t) for t in mutants.assignment_templates()]
+        muts = [("assign-template", t) for t in mutants.assignment_templates()] + \
+            [("union-call-template", t) for t in mutants.union_call_templates()]
     else:
         muts = [("template", t) for t in mutants.narrowing_templates()] + \
             [("assign-template", t) for t in mutants.assignment_templates()] + \
